@@ -4,6 +4,7 @@ import (
 	"fmt"
 	"go/ast"
 	"go/token"
+	"go/types"
 	"sort"
 	"strings"
 
@@ -14,7 +15,7 @@ func init() {
 	register(&propertyDef{
 		id:    "C08",
 		title: "accepted workflows are type-sound",
-		rules: []ruleFunc{c08R1, c08R2, c08R3, c08R4, c08R5, c08R6, c08R7, c08R8},
+		rules: []ruleFunc{c08R1, c08R2, c08R3, c08R4, c08R5, c08R6, c08R7, c08R8, c08R9, c08R10},
 		decided: "writer/reader agreement for every engine-generated step output: each (stage, output id) a provider reports with a literal value is declared in that provider's Lifecycle, the value is in serialized (map) form, its key set equals the declared object's properties and every key's Go type matches the property's schema constructor (R1); " +
 			"stage inputs are validated before hand-over (R2 = C02.R6); the returned output is validated (R3 = C03.R4); the workflow input is validated first (R4 = C19.R1); a loop step lists an item under `success` only after comparing the sub-run's output id with \"success\" (R5). Shared: the data model holds the normalised input on every path (R6 = C19.R2). The declared schemas of engine-generated outputs carry no constraint the producing code does not establish (R1c); the typing walkers descend into every element (R7 = C02.R7).",
 		notDecided: "soundness of ValidateCompatibility and of type inference (needs generated workflows); conformance of what a plugin itself sends (no engine-side validation exists).",
@@ -423,4 +424,298 @@ func c08R5(c *Ctx) {
 		})
 	}
 	c.minCount(rule, "sub-run Execute calls", n, 1)
+}
+
+// C08.R9 an input the provider cannot do without is declared required.
+func c08R9(c *Ctx) {
+	const rule = "C08.R9"
+	c.explain("C08.R9 for each step provider: a stage input field whose absence the provider's ProvideStageInput refuses (the nil test of `input[<field>]` returns an error) or cannot handle (the value goes straight into reflect.ValueOf(…).Len()) is declared in the provider's Lifecycle with the constant `required = true`: Prepare rejects a workflow that omits it (`required input … not found`). Declared optional (or conditionally required), the workflow is accepted and the run ends with `bug: failed to provide input to step …`")
+	n := 0
+	for _, pkg := range []string{pkgPlugin, pkgForeach} {
+		// declared: field -> the `required` argument of its property schema, over all Lifecycle implementations of the package
+		declared := map[string][]ssa.Value{}
+		declPos := map[string]string{}
+		for _, lf := range c.ifaceMethodImpls(pkgStep, "RunnableStep", "Lifecycle") {
+			if pkgPathOf(lf) != pkg {
+				continue
+			}
+			c.eachInstrLogical(lf, func(r instrRef) {
+				mu, ok := r.I.(*ssa.MapUpdate)
+				if !ok {
+					return
+				}
+				k, isC := constString(mu.Key)
+				if !isC {
+					return
+				}
+				call, ok := mu.Value.(*ssa.Call)
+				if !ok || !strings.HasSuffix(calleeName(call.Common()), "schema.NewPropertySchema") || len(call.Call.Args) < 3 {
+					return
+				}
+				declared[k] = append(declared[k], call.Call.Args[2])
+				declPos[k] = c.instrPos(call)
+			})
+		}
+		// mandatory at hand-over
+		mandatory := map[string]string{}
+		for _, ps := range c.ifaceMethodImpls(pkgStep, "RunningStep", "ProvideStageInput") {
+			if pkgPathOf(ps) != pkg {
+				continue
+			}
+			c.eachInstrLogical(ps, func(r instrRef) {
+				lk, ok := r.I.(*ssa.Lookup)
+				if !ok || lk.CommaOk || lk.Referrers() == nil {
+					return
+				}
+				k, isC := constString(lk.Index)
+				if !isC {
+					return
+				}
+				for _, ref := range *lk.Referrers() {
+					switch y := ref.(type) {
+					case *ssa.BinOp:
+						if !isNilConst(y.Y) || y.Referrers() == nil {
+							continue
+						}
+						for _, r2 := range *y.Referrers() {
+							ifi, ok := r2.(*ssa.If)
+							if !ok {
+								continue
+							}
+							nilEdge := 0
+							if y.Op == token.NEQ {
+								nilEdge = 1
+							}
+							if (y.Op == token.EQL || y.Op == token.NEQ) && blockReturnsError(ifi.Block().Succs[nilEdge]) {
+								mandatory[k] = "its absence is refused at " + c.instrPos(ifi)
+							}
+						}
+					}
+				}
+			})
+			// the value goes (possibly through the parameter of a helper the method owns) into reflect.ValueOf without a nil test
+			c.eachInstrLogical(ps, func(r instrRef) {
+				y, ok := r.I.(*ssa.Call)
+				if !ok || calleeName(y.Common()) != "reflect.ValueOf" || len(y.Call.Args) != 1 {
+					return
+				}
+				var lk *ssa.Lookup
+				if !derivesFrom(y.Call.Args[0], func(v ssa.Value) bool {
+					l, ok := v.(*ssa.Lookup)
+					if !ok || l.CommaOk {
+						return false
+					}
+					if _, isC := constString(l.Index); !isC {
+						return false
+					}
+					if _, isMap := l.X.Type().Underlying().(*types.Map); !isMap {
+						return false
+					}
+					lk = l
+					return true
+				}) || lk == nil {
+					return
+				}
+				k, _ := constString(lk.Index)
+				isNilTest := func(cond ssa.Value) bool {
+					b, ok := cond.(*ssa.BinOp)
+					return ok && (b.Op == token.NEQ || b.Op == token.EQL) && isNilConst(b.Y) && (sameVal(b.X, lk) || derivesFrom(b.X, isValue(lk)))
+				}
+				if guardedBy(y, true, isNilTest) == nil && guardedBy(y, false, isNilTest) == nil {
+					mandatory[k] = "it is reflected on without a nil test at " + c.instrPos(y)
+				}
+			})
+		}
+		for _, k := range sortedKeys(mandatory) {
+			n++
+			key := "required:" + shortPkg(pkg) + ":" + k
+			reqs := declared[k]
+			if len(reqs) == 0 {
+				c.bad(rule, key, "-", fmt.Sprintf("the %s provider needs the stage input `%s` (%s) but its Lifecycle declares no such input", shortPkg(pkg), k, mandatory[k]))
+				continue
+			}
+			okAll := true
+			for _, rq := range reqs {
+				if b, isB := constBool(rq); !isB || !b {
+					okAll = false
+				}
+			}
+			c.verdict(okAll, rule, key, declPos[k], fmt.Sprintf("`%s` is declared required (%s)", k, mandatory[k]),
+				fmt.Sprintf("the %s provider cannot do without the stage input `%s` (%s) but its Lifecycle does not declare it with the constant required=true: a workflow that omits it is accepted and fails at run time with `bug: failed to provide input`", shortPkg(pkg), k, mandatory[k]))
+		}
+	}
+	c.minCount(rule, "stage inputs the providers cannot do without", n, 2)
+}
+
+// C08.R10 inferred integer bounds are the ranges of the Go kinds.
+func c08R10(c *Ctx) {
+	const rule = "C08.R10"
+	c.explain("C08.R10 in infer.Type every integer schema returned for a Go integer kind has the constant bounds of that kind (capped at the int64 range the schema language has): the inferred output schema is what the produced value is later validated against, so a bound that is too small makes an accepted workflow fail with `bug: output schema cannot unserialize output data`")
+	fn := c.Fn("infer.Type")
+	if fn == nil {
+		return
+	}
+	// reflect.Kind -> (min, max) as int64
+	const maxI64 = int64(1<<63 - 1)
+	const minI64 = -maxI64 - 1
+	ranges := map[int64][2]int64{
+		2: {minI64, maxI64}, // Int (64-bit platforms; MinInt/MaxInt constants)
+		3: {-128, 127}, 4: {-32768, 32767}, 5: {-2147483648, 2147483647}, 6: {minI64, maxI64},
+		7:  {0, maxI64}, // Uint, capped
+		8:  {0, 255},
+		9:  {0, 65535},
+		10: {0, 4294967295},
+		11: {0, maxI64}, // Uint64, capped
+	}
+	names := map[int64]string{2: "Int", 3: "Int8", 4: "Int16", 5: "Int32", 6: "Int64", 7: "Uint", 8: "Uint8", 9: "Uint16", 10: "Uint32", 11: "Uint64"}
+	constArg := func(v ssa.Value) (int64, bool) {
+		for i := 0; i < 4; i++ {
+			switch x := v.(type) {
+			case *ssa.Call:
+				if strings.Contains(calleeName(x.Common()), "schema.PointerTo") && len(x.Call.Args) == 1 {
+					v = x.Call.Args[0]
+					continue
+				}
+				return 0, false
+			}
+			break
+		}
+		return constInt(v)
+	}
+	n := 0
+	c.eachInstrLogical(fn, func(r instrRef) {
+		call, ok := r.I.(*ssa.Call)
+		if !ok || !strings.HasSuffix(calleeName(call.Common()), "schema.NewIntSchema") || len(call.Call.Args) < 2 {
+			return
+		}
+		// the kinds on whose case this call sits
+		var kinds []int64
+		for k := range ranges {
+			k := k
+			if guardedBy(call, true, func(cond ssa.Value) bool {
+				b, ok := cond.(*ssa.BinOp)
+				if !ok || b.Op != token.EQL || !strings.HasSuffix(b.X.Type().String(), "reflect.Kind") {
+					return false
+				}
+				v, isC := constInt(b.Y)
+				return isC && v == k
+			}) != nil {
+				kinds = append(kinds, k)
+			}
+		}
+		if len(kinds) == 0 {
+			return
+		}
+		sort.Slice(kinds, func(i, j int) bool { return kinds[i] < kinds[j] })
+		n++
+		lo, okLo := constArg(call.Call.Args[0])
+		hi, okHi := constArg(call.Call.Args[1])
+		var nm []string
+		okAll := okLo && okHi
+		for _, k := range kinds {
+			nm = append(nm, names[k])
+			if okAll && (ranges[k][0] != lo || ranges[k][1] != hi) {
+				okAll = false
+			}
+		}
+		key := "int-bounds:" + strings.Join(nm, "+")
+		c.verdict(okAll, rule, key, c.instrPos(call), fmt.Sprintf("[%d, %d] is the range of %s", lo, hi, strings.Join(nm, "/")),
+			fmt.Sprintf("the integer schema inferred for reflect.%s does not have the constant bounds of that kind (constant bounds: %v/%v; got [%d, %d]): values in the rest of the kind's range are accepted at preparation and rejected when the output is validated", strings.Join(nm, "/"), okLo, okHi, lo, hi))
+	})
+	// table form: the bounds come from a package-level map from reflect.Kind to a pair of constants, looked up with the
+	// value's kind (filled during initialisation, never written afterwards — C17.R3)
+	if n < 10 {
+		var table *ssa.Global
+		c.eachInstrLogical(fn, func(r instrRef) {
+			lk, ok := r.I.(*ssa.Lookup)
+			if !ok {
+				return
+			}
+			u, ok := lk.X.(*ssa.UnOp)
+			if !ok {
+				return
+			}
+			g, ok := u.X.(*ssa.Global)
+			if !ok {
+				return
+			}
+			if mt, ok := lk.X.Type().Underlying().(*types.Map); ok && strings.HasSuffix(mt.Key().String(), "reflect.Kind") {
+				table = g
+			}
+		})
+		if table != nil {
+			for _, f := range c.RepoFns {
+				if f.Pkg != fn.Pkg || f.Parent() != nil || !(f.Name() == "init" || strings.HasPrefix(f.Name(), "init#")) {
+					continue
+				}
+				eachInstr(f, func(r instrRef) {
+					mu, ok := r.I.(*ssa.MapUpdate)
+					if !ok {
+						return
+					}
+					isTable := false
+					if mm, ok := mu.Map.(*ssa.MakeMap); ok && mm.Referrers() != nil {
+						for _, ref := range *mm.Referrers() {
+							if st, ok := ref.(*ssa.Store); ok && st.Addr == ssa.Value(table) {
+								isTable = true
+							}
+						}
+					}
+					if u, ok := mu.Map.(*ssa.UnOp); ok && u.X == ssa.Value(table) {
+						isTable = true
+					}
+					k, isC := constInt(mu.Key)
+					if !isTable || !isC {
+						return
+					}
+					want, known := ranges[k]
+					if !known {
+						return
+					}
+					// the value: a struct / array literal with two constant components
+					var comps []int64
+					if ld, ok := mu.Value.(*ssa.UnOp); ok {
+						if al, ok := ld.X.(*ssa.Alloc); ok && al.Referrers() != nil {
+							vals := map[int]int64{}
+							for _, ref := range *al.Referrers() {
+								idx := -1
+								var addr ssa.Value
+								switch y := ref.(type) {
+								case *ssa.FieldAddr:
+									idx, addr = y.Field, y
+								case *ssa.IndexAddr:
+									if i, ok := constInt(y.Index); ok {
+										idx, addr = int(i), y
+									}
+								}
+								if addr == nil || addr.Referrers() == nil {
+									continue
+								}
+								for _, r2 := range *addr.Referrers() {
+									if st, ok := r2.(*ssa.Store); ok && st.Addr == addr {
+										if cv, ok := constInt(st.Val); ok {
+											vals[idx] = cv
+										}
+									}
+								}
+							}
+							// zero-valued components are not stored
+							comps = []int64{vals[0], vals[1]}
+						}
+					}
+					if comps == nil {
+						if cst, ok := mu.Value.(*ssa.Const); ok && cst.Value == nil {
+							comps = []int64{0, 0}
+						}
+					}
+					n++
+					key := "int-bounds:" + names[k]
+					okc := comps != nil && comps[0] == want[0] && comps[1] == want[1]
+					c.verdict(okc, rule, key, c.instrPos(mu), fmt.Sprintf("the table gives %s its range", names[k]),
+						fmt.Sprintf("the bounds table gives reflect.%s the range %v, not [%d, %d]", names[k], comps, want[0], want[1]))
+				})
+			}
+		}
+	}
+	c.minCount(rule, "integer kinds with an inferred schema", n, 10)
 }
